@@ -29,6 +29,9 @@ def specs(pid, tier):
                 sp.append(("max", arte, True, 256, None, None, False, 4))
         sp.append(("max", 0, True, 256, None, None, False, 5))
         sp.append(("max", 3, True, 256, None, 2, False, 7))
+        for cols in (8, 16) + ((24, 256) if T else ()):
+            sp.append(("max", 0, False, cols, None, None, False, 7))   # height taken from the length field
+            sp.append(("max", 3, False, cols, None, None, True, 7))
         sp.append(("mge", "raw", 4 if not T else 8, True))
         sp.append(("mge", "raw", 3 if not T else 6, False))
         sp.append(("cm3", 0x01, ((128, None),)))
@@ -80,6 +83,11 @@ def specs(pid, tier):
         sp.append(("max", 0, False, 8, 1, 2, False, 8))
         sp.append(("max", 0, False, 8, None, 1, False, 8))
         sp.append(("maxskipnews",))
+        for typ in (0x00, 0x01, 0x80, 0x81):
+            sp.append(("cm3", typ, ((128, None),)))
+            sp.append(("cm3", typ, ((None, "all-left"),)))
+        sp.append(("mge", "raw", 3, True))
+        sp.append(("mge", "rle", 2, True))
     elif pid == "C19":
         for L in range(0, 21 if not T else 25):
             sp.append(("hrs", 4, 2, None, L))
@@ -191,7 +199,19 @@ def _work(pid, spec, st, out):
         elif pid == "C17":
             obligations_pixels(out, spec, st, pid)
         elif pid == "C18":
-            obligations_size(out, spec, st)
+            if spec[0] in ("cm3", "mge", "rat"):
+                # fixed-geometry formats: the header must announce the size the format dictates for this picture type,
+                # and the samples that follow must be the picture's (a header / table mis-read desynchronises them)
+                obligations_pixels(out, spec, st, pid)
+                case = make_case(spec)
+                for p in case.paths:
+                    st.bump("obligations")
+                    if p.get("header_ok") is False:
+                        out["sigs"].append((f"header:{case.decoder}", f"{case.name}: header differs from the size the format dictates", {"case": str(spec)}))
+                    else:
+                        st.bump("identity")
+            else:
+                obligations_size(out, spec, st)
         elif pid == "C19":
             obligations_damage(out, spec, st)
     except HarnessGap as e:
@@ -241,9 +261,31 @@ def ref_paths(fn, pc):
         val = fn(path)
         outs.append((list(path.pc), val))
         stack.extend(path.siblings(len(dec)))
-        if len(outs) > 200:
+        if len(outs) > 3000:
             raise HarnessGap("reference path explosion")
     return outs
+
+
+def max_refusal_ob(out, case, p, spec, st):
+    """a well-formed MAX header must not be refused: first byte 0 and (height given, or the length field is a whole
+    number of rows at this width)"""
+    head = p.get("head") or []
+    if case.params.get("newsroom") or len(head) < 3:
+        return
+    st.bump("obligations")
+    wf = [term(head[0]) == bv(0)]
+    if not case.params.get("rows"):
+        size8 = (term(head[1]) * 256 + term(head[2])) * 8
+        wf.append(z3.URem(size8, bv(case.params["cols"])) == bv(0))
+    v, m = smt.check(p["pc"] + case.premises + wf, 20000, True, stats=st)
+    st.bump(v)
+    if v == "sat":
+        size = m.eval(term(head[1]) * 256 + term(head[2]), True).as_long()
+        got, data = case.replay(m)
+        st.bump("replays")
+        if not (isinstance(got, tuple) and got[1] is False):
+            raise HarnessError(f"{case.name}: refusal model did not replay on the real decoder: {str(got)[:80]} for {data.hex()}")
+        out["sigs"].append(("refused:maxtoppm:well-formed-header", f"{case.name}: a header with first byte 0 and length field {size} (= {size * 8 // case.params['cols']} rows of {case.params['cols']}) is refused", {"case": str(spec), "size": size}))
 
 
 def obligations_pixels(out, spec, st, pid):
@@ -268,6 +310,8 @@ def obligations_pixels(out, spec, st, pid):
         if p["status"] == "unwind":
             out["unwound"] += 1
             continue
+        if case.decoder == "maxtoppm" and p.get("value") is False:
+            max_refusal_ob(out, case, p, spec, st)
         got = p.get("samples", p.get("got"))
         for pc2, want in want_for(case, p, st):
             if want is None:
@@ -290,6 +334,9 @@ def obligations_pixels(out, spec, st, pid):
                     fam = re.sub(r"[0-9]+", "N", case.name.split(":")[1]) if case.decoder in ("maxtoppm",) else ""
                     mode = f":mode{case.params.get('arte')}" if case.decoder == "maxtoppm" else (":" + case.params.get("mode", "") + (":cmp" if case.params.get("rgb") is False else "")) if case.decoder == "mgetoppm" else ""
                     out["sigs"].append((f"pixel:{case.decoder}{mode}:{sample_class(case.decoder, i)}", f"{case.name}: sample {i} wrong for input {raw.hex()} ({what})", {"input_hex": raw.hex(), "case": str(spec)}))
+            # every sample the reference derives from the (complete) records of the input must have been written
+            if len(got) < len(want) and case.decoder in ("cm3toppm", "mgetoppm", "rattoppm"):
+                out["sigs"].append((f"missing-samples:{case.decoder}", f"{case.name}: {len(got)} samples written ({p['status']}), {len(want)} derivable from the complete records of the input", {"case": str(spec)}))
             # a successful path must not deliver more samples than the reference derives from the input
             if p["status"] == "ok" and len(got) > len(want) and case.decoder not in ("pixtopgm",):
                 out["sigs"].append((f"extra-samples:{case.decoder}", f"{case.name}: {len(got)} samples written, {len(want)} derivable from the input", {"case": str(spec)}))
@@ -578,6 +625,7 @@ def obligations_size(out, spec, st):
                 st.bump("identity")
         elif d == "maxtoppm":
             if p["value"] is False:
+                max_refusal_ob(out, case, p, spec, st)
                 continue
             cols, rows = p["hdr"]
             ecols, erows = p["expect"]
@@ -624,6 +672,22 @@ def obligations_damage(out, spec, st):
         if p["status"] == "unwind":
             out["unwound"] += 1
             continue
+        if d == "mgetoppm" and ":hdr" in case.name and len(p.get("samples") or []) > 0:
+            # corrupted header field: a path that gets as far as writing picture samples must have checked the first
+            # header byte (the format has exactly one valid value, 0)
+            st.bump("obligations")
+            h0 = [c for c in case.cells if c.t.decl().name().startswith("hdr")][0]
+            v, m = smt.check(p["pc"] + case.premises + [term(h0) != bv(0)], 20000, True, stats=st)
+            st.bump(v)
+            if v == "sat":
+                real, raw = case.replay(m)
+                st.bump("replays")
+                if isinstance(real, (bytes, bytearray)) and len(real) > 15:
+                    out["sigs"].append(("silent:mgetoppm:bad-first-byte", f"{case.name}: first header byte {raw[:1].hex()} is accepted and pixels are written", {"case": str(spec), "input_hex": raw.hex()}))
+                elif not (isinstance(real, str) and len(real.split(":")[-1]) > 30):
+                    raise HarnessError(f"{case.name}: header model did not replay: {str(real)[:60]}")
+                else:
+                    out["sigs"].append(("silent:mgetoppm:bad-first-byte", f"{case.name}: first header byte {raw[:1].hex()} is accepted and pixels are written before the input ends", {"case": str(spec), "input_hex": raw.hex()}))
         if p["status"] != "ok":
             continue  # failure reported
         st.bump("obligations")
